@@ -1,4 +1,95 @@
 import OsloModel.Proto
+import OsloModel.Mask
+import OsloModel.MaskDict
+open Oslo Oslo.Proto Oslo.Flat Oslo.Mask Oslo.MaskDict
 
--- stub: replaced by the real driver of this property group
-def main : IO Unit := Oslo.Proto.serve (fun _ => "bad-request")
+/-
+Requests (fields TAB-separated, text hex-encoded UTF-8, "-" = empty):
+  mask  <msg> <secret>                     -> ok <result> | unmodelled
+  sub   <2|1|W> <index> <key> <msg> <secret> -> ok <result> | unmodelled     (one pattern, one re.sub)
+  lower <msg>                              -> ok <str.lower(msg)>
+  dict  <tree> <secret>                    -> ok <tree> | TypeError | unmodelled
+Tree tokens (space-separated, prefix order): S:<hex> str, O:<id> other object,
+M:<n> mapping followed by n (key, value) pairs; keys K:<hex> str, X:<id> other.
+-/
+
+def hasBackslash (s : List Char) : Bool := s.any (· == '\\')
+
+def okChars (s : List Char) : String := "ok\t" ++ hexChars s
+
+partial def parseVal : List String → Option (PyVal × List String)
+  | [] => none
+  | tok :: rest =>
+    match tok.splitOn ":" with
+    | ["S", h] => (unhexChars h).map (fun s => (PyVal.str s, rest))
+    | ["O", n] => n.toNat?.map (fun i => (PyVal.opaque i, rest))
+    | ["M", n] =>
+      match n.toNat? with
+      | none => none
+      | some cnt =>
+        let rec go (cnt : Nat) (toks : List String) (acc : List (PyKey × PyVal)) :
+            Option (List (PyKey × PyVal) × List String) :=
+          if cnt = 0 then some (acc.reverse, toks) else
+          match toks with
+          | [] => none
+          | kt :: toks' =>
+            let key : Option PyKey :=
+              match kt.splitOn ":" with
+              | ["K", h] => (unhexChars h).map PyKey.str
+              | ["X", i] => i.toNat?.map PyKey.other
+              | _ => none
+            match key with
+            | none => none
+            | some k =>
+              match parseVal toks' with
+              | none => none
+              | some (v, toks'') => go (cnt - 1) toks'' ((k, v) :: acc)
+        (go cnt rest []).map (fun (items, r) => (PyVal.map items, r))
+    | _ => none
+
+def showKey : PyKey → String
+  | .str s => "K:" ++ hexChars s
+  | .other i => s!"X:{i}"
+
+partial def showVal : PyVal → String
+  | .str s => "S:" ++ hexChars s
+  | .opaque i => s!"O:{i}"
+  | .map items =>
+    String.intercalate " " (s!"M:{items.length}" :: items.map (fun (k, v) => showKey k ++ " " ++ showVal v))
+
+def pickList (which : String) : Option (List Template × List RepTok) :=
+  if which = "2" then some (Gen.patterns2, rep2)
+  else if which = "1" then some (Gen.patterns1, rep1)
+  else if which = "W" then some (Gen.patternsWildcard, repW)
+  else none
+
+def handle : List String → String
+  | ["mask", m, s] =>
+    match unhexChars m, unhexChars s with
+    | some msg, some mask =>
+      if hasBackslash mask then "unmodelled" else okChars (maskPassword msg mask)
+    | _, _ => "bad-request"
+  | ["sub", which, idx, k, m, s] =>
+    match pickList which, idx.toNat?, unhexChars k, unhexChars m, unhexChars s with
+    | some (ts, rep), some i, some key, some msg, some mask =>
+      match ts[i]? with
+      | none => "bad-request"
+      | some t =>
+        if hasBackslash mask then "unmodelled"
+        else okChars (subPat (t.inst (keyItems key)) rep mask msg)
+    | _, _, _, _, _ => "bad-request"
+  | ["lower", m] =>
+    match unhexChars m with
+    | some msg => okChars (pyLower msg)
+    | none => "bad-request"
+  | ["dict", t, s] =>
+    match parseVal (if t = "-" then [] else t.splitOn " "), unhexChars s with
+    | some (v, []), some mask =>
+      if hasBackslash mask then "unmodelled" else
+      match maskDict v mask with
+      | .ok r => "ok\t" ++ showVal r
+      | .error .typeError => "TypeError"
+    | _, _ => "bad-request"
+  | _ => "bad-request"
+
+def main : IO Unit := serve handle
